@@ -20,6 +20,8 @@ use rand_distr::{Distribution, Exp1, Normal, StandardNormal};
 use serde::{Deserialize, Serialize};
 
 pub const Z_MAX: f64 = 6.5;
+/// first-pass threshold above which a statistic is re-estimated with 4x the work
+const Z_SUSPECT: f64 = 4.5;
 
 /// one test function: name, expectation under the target, value on a state
 struct TestFn {
@@ -87,7 +89,7 @@ pub enum Config {
     GibbsBinormal { rho: R },
     /// HMC: harness Gaussian or the library's 2-D Gaussian
     /// `jitter`: the transitions are made with step(), and the public `step_size` field is given
-    /// a fresh value (0.8..1.2 x nominal, independent of the state) before every transition
+    /// a fresh value (0.5..1.5 x nominal, independent of the state) before every transition
     Hmc {
         spec: Spec,
         library_target: bool,
@@ -126,8 +128,8 @@ fn cfg_strategy(which: u8) -> BoxedStrategy<Config> {
                 spec,
                 library_target,
                 f32,
-                // (jitter scales the step by up to 1.2: keep below the stability limit 2)
-                eps_rel: R(if jitter { eps_rel.min(1.5) } else { eps_rel }),
+                // (jitter scales the step by 0.5..1.5: keep below the stability limit 2)
+                eps_rel: R(if jitter { eps_rel.min(1.2) } else { eps_rel }),
                 n_leapfrog: if jitter { n_leapfrog.min(6) } else { n_leapfrog },
                 jitter,
             },
@@ -360,7 +362,7 @@ where
         ($s:expr) => {{
             let mut out = vec![0.0f64; chains * n * d];
             for i in 0..n {
-                $s.step_size = T::from_f64(eps * (0.8 + 0.4 * rng.unif())).unwrap();
+                $s.step_size = T::from_f64(eps * (0.5 + rng.unif())).unwrap();
                 $s.step();
                 let p = to_vec(&$s.positions);
                 for c in 0..chains {
@@ -568,7 +570,9 @@ fn check(c: &Case, cov: &mut Cov) -> CheckResult {
     let zs = z_scores(&first.draws, &first.fns);
     let worst = zs.iter().fold(0.0f64, |m, z| m.max(z.1.abs()));
     cov.track_max("max_abs_z_first_pass", if worst.is_finite() { worst } else { 1e9 });
-    let suspects: Vec<&(String, f64, f64, f64)> = zs.iter().filter(|z| !(z.1.abs() <= Z_MAX)).collect();
+    // two thresholds: a statistic beyond Z_SUSPECT is looked at again with 4x the work (a real
+    // bias then doubles its z), and only a re-run beyond Z_MAX with the same sign is reported
+    let suspects: Vec<&(String, f64, f64, f64)> = zs.iter().filter(|z| !(z.1.abs() <= Z_SUSPECT)).collect();
     if !suspects.is_empty() {
         // confirm with 4x the work and an independent seed stream: a real bias grows as sqrt(work)
         cov.class("suspect-rerun");
@@ -631,7 +635,7 @@ fn check(c: &Case, cov: &mut Cov) -> CheckResult {
 
 pub fn run(ctx: &mut Ctx) {
     ctx.rule = "targets with closed-form moments: correlated Gaussians dim 1..5 (MH with the library's isotropic proposal and with an asymmetric drifted walk; HMC and NUTS on the harness Gaussian and on the library's 2-D Gaussian, f32 and f64), Poisson / binomial with an asymmetric +-1 proposal, the library's Categorical as an MH target with a cyclic asymmetric proposal, a bivariate normal via Gibbs; tuning in the stable range (HMC eps 0.3..1.7 x smallest sd, i.e. up to 85% of the stability limit; NUTS requested acceptance 0.6..0.9); 48-64 independent chains per configuration started from exact draws of the target; non-trivial = move rate in (0.1, 0.99) (Gibbs/NUTS: always); distinct by configuration fingerprint".into();
-    ctx.assume("statistical: |z| <= 6.5 with the between-chain standard error (valid whatever the autocorrelation); a suspect is re-run with 4x the work and fresh seeds and reported only if it exceeds the threshold again with the same sign; biases below a few percent of a posterior sd are below the noise floor and not detectable");
+    ctx.assume("statistical: between-chain standard error (valid whatever the autocorrelation); a statistic with |z| > 4.5 is re-estimated with 4x the work and fresh seeds and reported only if that re-run has |z| > 6.5 with the same sign; biases below a few percent of a posterior sd are below the noise floor and not detectable");
     ctx.assume("'for all seeds/targets' is sampled, not decided");
     let t = ctx.tier;
     ctx.section("mh-gauss", "MH on Gaussians: means, variances, covariances, two tail probabilities per coordinate", t.pick(96, 3_000), 16, || strategy(0), check);
